@@ -353,7 +353,7 @@ type sweepItem struct {
 var (
 	sweepOnce  sync.Once
 	sweepItems []sweepItem
-	sweepFaces map[int]string // alphabet -> covering face reference
+	sweepFaces map[int][]string // alphabet -> up to 3 covering face references
 )
 
 func sweepInit(faces []corpus.FaceRef) {
@@ -367,8 +367,9 @@ func sweepInit(faces []corpus.FaceRef) {
 				}
 			}
 		}
-		sweepFaces = map[int]string{}
+		sweepFaces = map[int][]string{}
 		for ai, a := range gen.Alphabets {
+			var cov []string
 			for _, ref := range faces {
 				ft := ref.Font()
 				n := 0
@@ -377,16 +378,27 @@ func sweepInit(faces []corpus.FaceRef) {
 						n++
 					}
 				}
-				if n >= 3 {
-					sweepFaces[ai] = ref.String()
-					break
+				// also require one of the marks, so that mark-specific paths are reached
+				hasMark := false
+				for _, m := range a.Marks {
+					if _, ok := ft.NominalGlyph(m); ok && m > 0x2FF && m != 0x200D && m != 0x200C {
+						hasMark = true
+						break
+					}
+				}
+				if n >= 3 && hasMark {
+					cov = append(cov, ref.String())
 				}
 			}
+			if len(cov) > 3 {
+				cov = []string{cov[0], cov[len(cov)/2], cov[len(cov)-1]}
+			}
+			sweepFaces[ai] = cov
 		}
 	})
 }
 
-const sweepVariants = 2 * 4 * 4 * 2 // order x direction x api/cluster level x face
+const sweepVariants = 2 * 4 * 4 * 4 * 3 // order x direction x api/cluster level x face x letter choice
 
 // SweepSize is the number of sweep cases.
 func SweepSize(faces []corpus.FaceRef) int {
@@ -402,10 +414,13 @@ func SweepCase(k int, faces []corpus.FaceRef) *Case {
 	order, v := v%2, v/2
 	dir, v := v%4, v/4
 	api, v := v%4, v/4
-	facesel := v % 2
+	facesel, v := v%4, v/4
+	lsel := v % 3
 	a := gen.Alphabets[it.alphabet]
-	l1 := a.Letters[(k/sweepVariants)%len(a.Letters)]
-	l2 := a.Letters[(k/sweepVariants*7+3)%len(a.Letters)]
+	// three letter choices per mark: spread over the beginning, middle and end of the letters
+	n := len(a.Letters)
+	l1 := a.Letters[((k/sweepVariants)%7+lsel*n/3)%n]
+	l2 := a.Letters[((k/sweepVariants*7+3)%5+(2-lsel)*n/3)%n]
 	var text []rune
 	if order == 0 {
 		text = []rune{l1, it.mark, l2}
@@ -415,8 +430,8 @@ func SweepCase(k int, faces []corpus.FaceRef) *Case {
 	c := &Case{Text: text, RunStart: 0, RunEnd: len(text), Dir: uint8(allDirs[dir]), Size: 16 << 6, Source: "pair-sweep"}
 	c.Script = uint32(guessScript(text))
 	c.Face = faces[0].String()
-	if f, ok := sweepFaces[it.alphabet]; ok && facesel == 0 {
-		c.Face = f
+	if fs := sweepFaces[it.alphabet]; facesel < len(fs) {
+		c.Face = fs[facesel]
 	} else if ref, ok := corpus.ParseRef("sys/DejaVuSans.ttf#0"); ok {
 		c.Face = ref.String()
 	}
